@@ -252,6 +252,8 @@ def plan(pid, tier):
     P['C10'] = lambda: (rc_jobs('h_header', 'c10', 10, 2500 if q else 60000) + sweep_jobs('h_header', 'c10_sweep', 2) + rc_jobs('h_header', 'c10_alt', 2, 5000 if q else 100000))
     P['C11'] = lambda: rc_jobs('h_header', 'c11', 16, 2500 if q else 60000)
     P['C12'] = lambda: rc_jobs('h_header', 'c12', 16, 2500 if q else 60000)
+    P['C13'] = lambda: (sweep_jobs('h_args', 'c13_grid', 4) + rc_jobs('h_args', 'c13_grid_rc', 2, 1500 if q else 30000)
+                        + sweep_jobs('h_args', 'c13_box', 6 if q else 16) + rc_jobs('h_args', 'c13_box_rc', 4, 3000 if q else 60000))
     P['C20'] = lambda: rc_jobs('h_codec', 'c20', 16, 1500 if q else 40000)
     if pid not in P:
         return None
@@ -271,6 +273,7 @@ RULES = {
     'C10': 'CRC32 configurations x writer env value x reader env value x source (encode or reconstruct) x payload corruption (single bit, burst, byte, stored-field rewrites re-sealed); sweep: every single-bit flip of payloads of 2..64 bytes; plus liberasurecode_crc32_alt vs a bit-serial model on generated buffers. Non-trivial: payload contains a byte >= 0x80 and a corruption was applied.',
     'C11': 'fragment from encode (all back ends, both checksum types), optional asymmetric overwrite of fields that read the same both ways, optional payload bit flip; twin = field-wise byte-swapped header with swapped CRC. Oracle: metadata(twin) == metadata(native) field by field, equal return codes and header verdicts. Non-trivial: CRC32 fragment with corrupted payload.',
     'C12': 'validator instance x producer instance (same, other shape, other back end) x fragment x one edit (index boundary values, back-end id 0..255, back-end version, library version, opposite-endian twin, payload bit, stale CRC, stored mismatch flag), re-sealed where the field comparison must decide. Oracle: independent validity predicate for is_invalid_fragment and for verify_stripe_metadata. Non-trivial: re-sealed single-field edit.',
+    'C13': 'argument grid: 16 public entry points x every argument position x {valid, NULL, destroyed / never-issued / -1 / 0 / INT_MAX / INT_MIN descriptor, fragment counts INT_MIN,-1,0,k-1, fragment lengths 0,1,79, destinations -1,k+m,INT_MAX,INT_MIN, back-end ids 9,100,INT_MAX,-1}: all single substitutions, all combinations of >=2 NULL pointers (also with a dead descriptor), never-issued descriptor x every other bad value, on 4 configurations, plus generated combinations; LeakSanitizer recoverable check after every case. Configuration box: back-end id 0..8 x k,m in -1..33 x hd 0..7 x w in {-1,0,4,7,8,16,32,64} (columns + boundary sample in quick, full in thorough) plus generated points: unsupported shape -> refused by every back end; anything accepted must survive encode(0,1,min+1)/decode complete and with tolerance-many erasures/reconstruct/size queries/fragments_needed/destroy. Non-trivial: bad argument not in first position or combined (grid); within 1 of an acceptance boundary (box).',
     'C20': 'rapidcheck-generated (configuration with CRC32, data, presented multiset, damaged subset: payload bit flips, re-sealed header field edits, unsealed header damage), decode with force=1. Non-trivial: at least one damaged DATA fragment.',
 }
 LEVELS = {}
@@ -335,6 +338,8 @@ for _m in ['c09', 'c09_sweep', 'c10', 'c10_sweep', 'c10_alt', 'c11', 'c12']:
     MODE_HARNESS[_m] = ('h_header', 'asan')
 for _m in ['c06', 'c06_xor_sweep', 'c06_rs_sweep']:
     MODE_HARNESS[_m] = ('h_needed', 'asan')
+for _m in ['c13_grid', 'c13_grid_rc', 'c13_box', 'c13_box_rc']:
+    MODE_HARNESS[_m] = ('h_args', 'asan')
 for _m in ['c07', 'c07_sweep', 'c08', 'c08_sweep', 'c04_matrix', 'c04_parity', 'c05_tables', 'c05_encode', 'c05_unsupported']:
     MODE_HARNESS[_m] = ('h_format', 'asan')
 for _m in ['c05_decode_sweep', 'c01', 'c01_xor_sweep', 'c01_rs_sweep', 'c01_isa_sweep', 'c02', 'c02_subsets', 'c02_band', 'c03', 'c03_xor_sweep', 'c03_rs_sweep', 'c20']:
@@ -380,6 +385,8 @@ def main_check(pid, tier, seed):
     shutil.rmtree(rundir, ignore_errors=True)
     os.makedirs(rundir)
     os.makedirs(FAILDIR, exist_ok=True)
+    for old_f in glob.glob(os.path.join(FAILDIR, pid + '-*.case')):
+        os.unlink(old_f)
     try:
         vdirs = prepare(pid, tier, {j['variant'] for j in jobs}, {(j['harness'], j['variant']) for j in jobs})
     except BuildError as e:
